@@ -1,5 +1,6 @@
 import Hgxv.Model.Wire
 import Hgxv.Model.C09
+import Hgxv.Model.C09Ext
 /-! Line protocol for C09 (the model runs over `Rat`).
   `load <nodes> <edges as natss> <weights as rats>`   -> `ok`        (static hypergraph)
   `mapping`                                            -> `i:label,...`
@@ -13,7 +14,11 @@ import Hgxv.Model.C09
   `maxord`                      -> `max_order()` or `rej`
   `incall k` | `lapall f`       -> `d=matrix|d=matrix...` for `d = 1..max_order` (`empty` for none), or `rej`
   `mlap <sigmas as rats> ow dw` -> matrix | `zero` (the integer 0) | `undef` (1/0 average degree) | `rej`
-  `tadjall <max_order|->`       -> `d@t=matrix|...`, or `rej`  -/
+  `tadjall <max_order|->`       -> `d@t=matrix|...`, or `rej`
+  second extension round:
+  `annall`                      -> keys of `annealed_adjacency_matrices_all_orders` (`-` for none), or `rej`
+  `annord d`                    -> its matrix of order `d`, or `rej`
+  `afac t`                      -> `adjacency_factor(h, t)` as `label:value,...`  -/
 open Wire C09
 
 structure St where
@@ -84,6 +89,10 @@ def step (s : St) : List String → St × String
   | ["tadjall", mo] =>
     (s, match temporalAdjAllOrders (if mo == "-" then none else some mo.toNat!) s.recs with
         | none => "rej" | some l => showDict2 l)
+  | ["annall"] => (s, match annealedAllOrders s.recs with | none => "rej" | some l => showNats (l.map (·.1)))
+  | ["annord", d] => (s, match annealedOne d.toNat! s.recs with | none => "rej" | some m => showRatss m)
+  | ["afac", t] => (s, showList "," "-" (fun (p : Nat × Rat) => toString p.1 ++ ":" ++ showRat p.2)
+      (adjFactor t.toNat! s.nodes (edges s)))
   | ["ttimes"] => (s, showNats (times s.recs))
   | ["tadj", t] => (s, showRatss (temporalAdj s.recs t.toNat!))
   | ["tmap", t] => (s, showMap (mapping (snapshotNodes s.recs t.toNat!)))
